@@ -204,6 +204,15 @@ func (c *checker) one(b []byte, s *optSet) (msg string) {
 			if errors.As(err, &se) && overflows(b) {
 				return ""
 			}
+			// under AllowDuplicateNames a repeated member is merged into the value stored for its first occurrence,
+			// which is documented to fail when the two values have different kinds ({"p":"x","p":3})
+			if errors.As(err, &se) && s.dup {
+				nd := s.ref
+				nd.AllowDupNames = false
+				if !refjson.Valid(b, nd) {
+					return ""
+				}
+			}
 		}
 		return fmt.Sprintf("Unmarshal(any) err=%v, reference valid=%v", err, want)
 	}
@@ -299,6 +308,9 @@ func Run(r *evid.Run) {
 			}
 		}
 	})
+	byteSweep(r)
+	escapeAtoms(r)
+	padSweep(r)
 	nameGrids(r)
 	neighbours(r, lens)
 	deep(r)
